@@ -203,7 +203,9 @@ pub fn run_a(sc: &ScenarioA, keep_events: bool) -> OutcomeA {
             );
         } else if msg.starts_with("exceeded max_steps") {
             inconclusive = Some(format!("scheduler step budget exhausted: {msg}"));
-        } else if loc.starts_with("src/") || msg.contains("Illegal move") {
+        } else if loc.starts_with("src/") {
+            // (every `position` line the GUI model sends was built and checked with the legality
+            // oracle, so an "Illegal move" panic of the engine's position handler is the engine's)
             // the harness' own files have crate-relative paths; the engine's are absolute (#[path])
             harness_error = Some(format!("panic in harness code at {loc}: {msg}"));
         } else {
